@@ -44,7 +44,8 @@ Value& ABSExpression::value(Context & ctx) const
     if (val.isNull())
       return val;
     Integer l = *val.integer();
-    v = Value(Integer(l < 0 ? -l : l));
+    /* the lowest integer wraps around to itself */
+    v = Value(l < 0 ? (Integer)(0 - (uint64_t)l) : l);
     break;
   }
   case Type::NUMERIC:
